@@ -1072,7 +1072,7 @@ def _div_(a, b):
     """
     division of a by b supporting presynching (inner join) of timeseries
     """
-    if is_num(b):
+    if is_num(b) or is_bool(b) or (isinstance(b, np.ndarray) and b.ndim == 0): # a single number, however spelled: np.bool_ and 0-d arrays have no cells to assign to
         return a * np.nan if b == 0 else a/b
     else:
         denom = b.copy()
